@@ -1189,6 +1189,87 @@ impl Entry {
     }
 }
 
+/// Verification hooks: plain-data views of otherwise crate-private selection state.
+///
+/// Add-only, compiled only with `--cfg googlefonts_fontations_verif`.
+#[cfg(googlefonts_fontations_verif)]
+pub mod verif_hooks {
+    use super::*;
+
+    /// Plain-data view of a [`PatchUri`].
+    #[derive(Debug, Clone, PartialEq)]
+    pub struct PatchUriView {
+        pub template: String,
+        pub id: PatchId,
+        pub encoding: PatchFormat,
+        pub is_iftx: bool,
+        pub compat_id: CompatibilityId,
+        pub application_flag_bit_index: usize,
+        pub intersecting_codepoints: u64,
+        pub intersecting_layout_tags: usize,
+        pub intersecting_design_space: Vec<(Tag, Fixed)>,
+        pub entry_order: usize,
+    }
+
+    /// Plain-data view of a decoded format 2 mapping entry.
+    #[derive(Debug, Clone, PartialEq)]
+    pub struct EntryView {
+        pub subset_definition: SubsetDefinition,
+        pub child_indices: Vec<usize>,
+        pub conjunctive_child_match: bool,
+        pub ignored: bool,
+        pub uri: PatchUriView,
+    }
+
+    pub fn patch_uri_view(uri: &PatchUri) -> PatchUriView {
+        PatchUriView {
+            template: uri.template.clone(),
+            id: uri.id.clone(),
+            encoding: uri.encoding,
+            is_iftx: matches!(uri.source_table, IftTableTag::Iftx(_)),
+            compat_id: uri.source_table.expected_compat_id().clone(),
+            application_flag_bit_index: uri.application_flag_bit_index,
+            intersecting_codepoints: uri.intersection_info.intersecting_codepoints,
+            intersecting_layout_tags: uri.intersection_info.intersecting_layout_tags,
+            intersecting_design_space: uri
+                .intersection_info
+                .intersecting_design_space
+                .iter()
+                .map(|(t, v)| (*t, *v))
+                .collect(),
+            entry_order: uri.intersection_info.entry_order,
+        }
+    }
+
+    /// Compares the intersection info of two uris with the ordering used for patch selection.
+    pub fn compare_intersection_info(a: &PatchUri, b: &PatchUri) -> Ordering {
+        a.intersection_info.cmp(&b.intersection_info)
+    }
+
+    /// Decodes all entries of the format 2 mapping table found under 'IFT ' (or 'IFTX' if `iftx`).
+    pub fn format2_entries(font: &FontRef, iftx: bool) -> Result<Vec<EntryView>, ReadError> {
+        for (tag, table) in IftTableTag::tables_in(font) {
+            if matches!(tag, IftTableTag::Iftx(_)) != iftx {
+                continue;
+            }
+            let Ift::Format2(map) = &table else {
+                return Err(ReadError::InvalidFormat(1));
+            };
+            return Ok(decode_format2_entries(&tag, map)?
+                .into_iter()
+                .map(|e| EntryView {
+                    subset_definition: e.subset_definition,
+                    child_indices: e.child_indices,
+                    conjunctive_child_match: e.conjunctive_child_match,
+                    ignored: e.ignored,
+                    uri: patch_uri_view(&e.uri),
+                })
+                .collect());
+        }
+        Err(ReadError::NullOffset)
+    }
+}
+
 #[cfg(test)]
 mod tests {
     use super::*;
